@@ -23,6 +23,29 @@ REVIEWED_GLOBALS = {
 MUTATORS = {"update", "setdefault", "pop", "popitem", "clear", "add", "discard", "remove", "append", "extend", "insert"}
 
 
+def accept_raises(sock_names):
+    """in _accept_method: the per-client routines fail with any Exception, and so does any operation on the accepted socket
+    or on the connection built from it (getpeername/fileno/register on a client that has already reset) - close() excepted"""
+    def raises(node_ast, kind):
+        r = per_client_raises(node_ast, kind)
+        if r is None or r:
+            return r
+        if node_ast is None or kind in ("with_exit", "except", "with_enter", "for"):
+            return set()
+        for c in A.calls(node_ast):
+            fn = c.func
+            if isinstance(fn, ast.Attribute) and isinstance(fn.value, ast.Name) and fn.value.id in sock_names \
+                    and fn.attr not in ("close",):
+                return {Exception}
+            d = A.call_name(c) or ""
+            if d.startswith("self.") and d.count(".") == 1 and d[5:].startswith("_") and any(
+                    isinstance(a, ast.Name) and a.id in sock_names for a in c.args) and d[5:] not in ("_authenticate_and_serve_client",):
+                # helper given the client's descriptor / connection (poll registration etc.)
+                return {Exception}
+        return set()
+    return raises
+
+
 def per_client_raises(node_ast, kind):
     """only the per-client routines (and the authenticator) fail, with any Exception"""
     if node_ast is None or kind in ("with_exit", "except", "with_enter", "for"):
@@ -36,6 +59,43 @@ def per_client_raises(node_ast, kind):
         if d.endswith(".serve_all") or d.endswith("._connect"):
             return {Exception}
     return set()
+
+
+def check_sigchld(ctx, rep, fsig, rule):
+    """the SIGCHLD handler reaps every exited child in a loop that ends as soon as no (more) child has exited"""
+    rep.analysed(fsig)
+    g = ctx.cfg(fsig, raises="default")
+    wp = [n for n in g.live if n.ast is not None and n.kind in ("stmt", "test") and A.find_calls(n.ast, "os.waitpid")]
+    loops = [n for n in A.walk(fsig.node) if isinstance(n, ast.While)]
+    in_loop = bool(wp) and all(A.enclosing(w.ast, ast.While) is not None or (w.kind == "test" and isinstance(w.owner, ast.While))
+                               for w in wp)
+    rep.ob(rule, "ForkingServer._handle_sigchld: reaps in a loop (several children may exit for one signal)", in_loop,
+           "os.waitpid(-1, WNOHANG) is called repeatedly" if in_loop else
+           "a single waitpid per signal: when two children exit close together only one is reaped, the other stays a zombie",
+           fsig.loc)
+    # the loop ends when waitpid reports no exited child: an exit condition comparing the returned pid with 0
+    pidvars = set()
+    for w in wp:
+        if isinstance(w.ast, ast.Assign) and isinstance(w.ast.targets[0], (ast.Tuple, ast.List)) and w.ast.targets[0].elts \
+                and isinstance(w.ast.targets[0].elts[0], ast.Name):
+            pidvars.add(w.ast.targets[0].elts[0].id)
+    exits_on_pid = False
+    for n in g.live:
+        if n.kind == "test" and isinstance(n.ast, ast.Compare) and isinstance(n.ast.left, ast.Name) and n.ast.left.id in pidvars \
+                and ctx.try_fold(n.ast.comparators[0]) in (0, 1):
+            for t, l in n.succ:
+                if l in ("true", "false"):
+                    r = Q.reach([t], labels=("next", "true", "false"))
+                    if not (set(wp) & r):
+                        exits_on_pid = True
+    rep.ob(rule, "ForkingServer._handle_sigchld: the reaping loop ends when no child has exited (pid <= 0)", exits_on_pid,
+           "the loop is left on a comparison of the returned pid with 0" if exits_on_pid else
+           "the loop does not end on `pid <= 0`: with children alive but none exited waitpid returns (0, 0) and the handler "
+           "spins forever inside the signal handler - the server never returns to accept()", fsig.loc)
+    hs = [n for n in g.live if n.kind == "except" and n.ast.type is not None and A.src(n.ast.type) in ("OSError", "Exception",
+                                                                                                     "ChildProcessError")]
+    rep.ob(rule, "ForkingServer._handle_sigchld: ECHILD is absorbed", bool(hs), "except OSError" if hs else
+           "waitpid's OSError (no children) escapes the signal handler", fsig.loc, kind="site")
 
 
 def run(ctx, rep):
@@ -56,7 +116,19 @@ def run(ctx, rep):
     rep.floor("R16.1", "concrete server classes", len(concrete), 4)
     for c in sorted(concrete, key=lambda x: x.name):
         f = c.methods["_accept_method"]
-        g = ctx.cfg(f, raises=per_client_raises)
+        # names bound to the client: the socket parameter and everything derived from it in this method
+        derived = {A.params(f.node)[1]}
+        changed = True
+        while changed:
+            changed = False
+            for n in A.walk(f.node):
+                if isinstance(n, ast.Assign) and (A.names_loaded(n.value) & derived):
+                    for nm in A.names_stored(n):
+                        if nm not in derived:
+                            derived.add(nm)
+                            changed = True
+        derived -= {"pid"}
+        g = ctx.cfg(f, raises=accept_raises(derived))
         rep.analysed(f, g)
         inline = [n for n in g.live if n.ast is not None and n.kind in ("stmt", "test") and n.raises]
         if c.name == "OneShotServer":
@@ -121,6 +193,9 @@ def run(ctx, rep):
     hnames = sorted(A.src(n.ast.type) for n in ga.live if n.kind == "except" and n.ast.type is not None)
     rep.ob("R16.1", "Server.accept: listener timeouts and transient socket errors are absorbed", okacc and "socket.timeout" in hnames,
            "handlers %s around listener.accept()" % hnames if okacc else "listener.accept() failures propagate", fa.loc)
+
+    fsig = ctx.func(SRV + ".ForkingServer._handle_sigchld")
+    check_sigchld(ctx, rep, fsig, "R16.1")
 
     # ------------------------------------------------------------------ R16.2
     for meth in ("_serve_clients", "_poll_inactive_clients"):
